@@ -33,6 +33,7 @@ import (
 	coapNet "github.com/plgd-dev/go-coap/v3/net"
 	"github.com/plgd-dev/go-coap/v3/net/responsewriter"
 	"github.com/plgd-dev/go-coap/v3/options"
+	"github.com/plgd-dev/go-coap/v3/pkg/runner/periodic"
 	"github.com/plgd-dev/go-coap/v3/tcp"
 	tcpclient "github.com/plgd-dev/go-coap/v3/tcp/client"
 	tcpserver "github.com/plgd-dev/go-coap/v3/tcp/server"
@@ -848,6 +849,78 @@ func runWild() WildTrace {
 	return tr
 }
 
+// KATrace: a tcp server with keep-alive probing; peer X connects and stalls (never answers a ping), the well-behaved
+// peer G (the library's own client, which answers pings) is idle meanwhile. "the closure of one peer never changes what
+// other peers receive": G's connection survives X's and still gets its answers.
+type KATrace struct {
+	Op       string `json:"op"` // kastall
+	GBefore  bool   `json:"gBefore"`
+	XDropped bool   `json:"xDropped"` // the server declared X inactive (steering: else nothing is judged)
+	GDropped int    `json:"gDropped"` // times the server declared G inactive
+	GClosed  bool   `json:"gClosed"`  // G's connection was closed
+	GAfter   bool   `json:"gAfter"`   // G's request after X was dropped was answered
+}
+
+func runKAStall() KATrace {
+	tr := KATrace{Op: "kastall"}
+	l, err := coapNet.NewTCPListener("tcp4", "127.0.0.1:0")
+	if err != nil {
+		rec.Die("listen tcp: %v", err)
+	}
+	defer func() { _ = l.Close() }()
+	var mu sync.Mutex
+	dropped := map[string]int{}
+	done := make(chan struct{})
+	sv := tcp.NewServer(options.WithErrors(func(error) {}),
+		options.WithPeriodicRunner(periodic.New(done, 20*time.Millisecond)),
+		options.WithKeepAlive(2, 450*time.Millisecond, func(cc *tcpclient.Conn) {
+			mu.Lock()
+			dropped[cc.RemoteAddr().String()]++
+			mu.Unlock()
+			_ = cc.Close()
+		}),
+		options.WithHandlerFunc(func(w *responsewriter.ResponseWriter[*tcpclient.Conn], r *pool.Message) {
+			_ = w.SetResponse(codes.Content, message.TextPlain, bytes.NewReader([]byte("ok")))
+		}))
+	served := make(chan error, 1)
+	go func() { served <- sv.Serve(l) }()
+	defer func() { sv.Stop(); <-served; close(done) }()
+	G, err := tcp.Dial(l.Addr().String(), options.WithErrors(func(error) {}))
+	if err != nil {
+		rec.Die("dial: %v", err)
+	}
+	defer G.Close()
+	ask := func() bool {
+		ctx, cancel := context.WithTimeout(context.Background(), time.Second)
+		defer cancel()
+		resp, err := G.Get(ctx, "/e")
+		if err != nil {
+			return false
+		}
+		defer G.ReleaseMessage(resp)
+		return resp.Code() == codes.Content
+	}
+	tr.GBefore = ask()
+	X, err := net.DialTimeout("tcp4", l.Addr().String(), time.Second)
+	if err != nil {
+		rec.Die("dial: %v", err)
+	}
+	defer X.Close()
+	xaddr := X.LocalAddr().String()
+	tr.XDropped = hooks.WaitFor(3*time.Second, func() bool { mu.Lock(); defer mu.Unlock(); return dropped[xaddr] > 0 })
+	time.Sleep(400 * time.Millisecond) // G idle for several probe intervals after X's end
+	mu.Lock()
+	tr.GDropped = dropped[G.LocalAddr().String()]
+	mu.Unlock()
+	select {
+	case <-G.Done():
+		tr.GClosed = true
+	default:
+	}
+	tr.GAfter = ask()
+	return tr
+}
+
 // Run replays every stimulus on every transport of this tier, then the discovery scenario.
 func Run(stimPath, out string) {
 	fh, err := os.Open(stimPath)
@@ -909,4 +982,5 @@ func Run(stimPath, out string) {
 		wr.Put(runStuck(q))
 	}
 	wr.Put(runWild())
+	wr.Put(runKAStall())
 }
